@@ -38,6 +38,21 @@ CLAIMS = {
          "KNOWN FINDING KF1 (listed in known_findings.json): thread-local systems of a builder passed to add_batch run on the pool "
          "worker executing the batch; rayon modelled, not verified",
          "trace-set theorems + differential correspondence", "5 C12"),
+ "C13": ("proof: C13_setup_and_dispose_visit_every_system_once: for every program well formed at every depth the list of hooks "
+         "called by Dispatcher::setup / ::dispose (stages, groups, members, batches recursively, then thread-locals) is a Permutation "
+         "of all systems of the program; tie: S2 records the real setup and dispose hook calls and compares their exact ORDER with "
+         "the extracted model list, plus world unchanged by a setup on a populated world",
+         "genuine defect found and repaired (fix: 5f7fbf8): dispose never reached systems inside a batch. The world half "
+         "(default-providing accessors create exactly the missing resources, optional forms create nothing) is proved in "
+         "SysDataProps.v and tied by suite S4 once registered under C06",
+         "structural induction on nesting + differential correspondence", "5 C13"),
+ "C14": ("proof over the faulty trace sets of Fault.v, for EVERY fault set and interleaving: panic reaches the caller iff a system "
+         "panicked; no system placed behind a panicking one runs (so no dependent, C02); no thread-local after a staged panic; nothing "
+         "runs twice; everything fetched is released; with no fault the model is the ordinary one (next dispatch). tie: S2 with fault "
+         "injection (1-2 panicking systems at every kind of position incl. inside batches and controllers, thread-locals), every "
+         "recorded faulty trace must be accepted by the extracted faulty acceptor, payload/probe/next-dispatch oracles on the real run",
+         "unwinding and rayon's panic propagation are modelled (superset: siblings complete, stop at their own panic or never start)",
+         "trace-set theorems + differential correspondence", "5 C14"),
  "C18": ("proof: C18_builder_total_and_errors_exact: for programs of any length and nesting the model builder fails exactly when the "
          "name-bookkeeping specification says so, with that error; no capacity/index/unwrap/overflow/unreachable error reachable "
          "(params_ok re-proved for the constants in the source); tie: S1 incl. malformed stream, outcome + quoted name of every call",
@@ -50,7 +65,7 @@ CLAIMS = {
          "stage/group and are outside the text",
          "invariant induction + differential correspondence", "5 C20"),
 }
-REGISTERED = ["C01", "C02", "C03", "C04", "C10", "C12", "C18", "C20"]
+REGISTERED = ["C01", "C02", "C03", "C04", "C10", "C12", "C13", "C14", "C18", "C20"]
 
 def main():
     props = [json.loads(l) for l in open(os.path.join(VERIF, "properties.jsonl"))]
